@@ -1,4 +1,5 @@
 import SpecVerif.Proofs.Lemmas.Yule
+import SpecVerif.Proofs.Lemmas.SchurCohn
 import Mathlib.Algebra.Star.Rat
 import Mathlib.Analysis.Complex.Basic
 /-
@@ -18,9 +19,12 @@ import Mathlib.Analysis.Complex.Basic
   `(i,j)` of the `(N+p)×(p+1)` 'autocorrelation' data matrix, the zero-padded `x[i-j]`.
 
   NOT proved here (outside the targets): that `lpc` (FFT-based autocorrelation) returns the same
-  coefficients, and that *all* roots of the order-`p` polynomial lie inside the unit circle for
-  `p ≥ 2` (Schur–Cohn: `|k_i| < 1` for all `i`, which IS proved, is equivalent to it, but the
-  equivalence itself is not formalised).  The root location is proved for order 1.
+  coefficients.
+  Stability is now PROVED for every order (section 8, `yule_stable`): for a non-zero signal *all*
+  roots of the order-`p` polynomial `z^p + a_1 z^{p-1} + … + a_p` lie strictly inside the unit
+  circle.  It follows from `|k_i| < 1` for all `i` (`yule_stable_params`) by the Schur–Cohn theorem
+  for the step-up recursion, formalised in `Proofs/Lemmas/SchurCohn.lean` (namespace
+  `SpecVerif.SchurL`); `yule_stable_order1` is the special case `p = 1`.
 -/
 namespace SpecVerif.C12
 open Finset SpecVerif SpecVerif.YuleL
@@ -317,5 +321,48 @@ theorem ma_length (x : List K) (Q M : ℕ) (b : List K) (rho : K)
 example : (0 : ℕ) < 1 ∧ (1 : ℕ) < 2 := by omega
 
 end MA
+
+/-! ### 8. stability for every order (Schur–Cohn) -/
+
+section Stability
+variable {F : Type} [RCLike F]
+
+/-- **stability, every order**: for a non-zero real or complex signal and every order `p`, every root
+`z` of the Yule–Walker prediction polynomial `A(z) = z^p + a_1 z^{p-1} + … + a_p` (the polynomial
+`[1, a_1..a_p]` handed to `numpy.roots`, i.e. `SchurL.polyA (aryule x p .biased).A z`) lies strictly
+inside the unit circle: the fitted AR model is stable. -/
+theorem yule_stable (x : List F) (hx : ∃ j, j < x.length ∧ nth x j ≠ 0) (p : ℕ) (z : F)
+    (hz : z ^ p + ∑ j ∈ range p, nth (aryule x p .biased).A j * z ^ (p - 1 - j) = 0) :
+    ‖z‖ < 1 := by
+  have hk := (yule_stable_params x hx p).2.2
+  rw [aryule_unfold] at hk hz
+  exact SchurL.levRun_root_lt_one _ _ p hk z hz
+
+/-- the same with the helper definition `SchurL.polyA a z = z^m + Σ_{j<m} a_j z^{m-1-j}` (`m` the
+length of `a`): no zero on or outside the unit circle -/
+theorem yule_stable_polyA (x : List F) (hx : ∃ j, j < x.length ∧ nth x j ≠ 0) (p : ℕ) (z : F)
+    (hz : 1 ≤ ‖z‖) : SchurL.polyA (aryule x p .biased).A z ≠ 0 := by
+  intro h
+  rw [SchurL.polyA_eq _ p (aryule_eq x p).2.2.2.2.1] at h
+  exact absurd (yule_stable x hx p z h) (not_lt.mpr hz)
+
+/-- **no pole on the frequency grid**: the polynomial `1 + a_1 w + … + a_p w^p` evaluated by the PSD
+code has no zero in the closed unit disc, in particular none with `|w| = 1`. -/
+theorem yule_no_unit_zeros (x : List F) (hx : ∃ j, j < x.length ∧ nth x j ≠ 0) (p : ℕ) (w : F)
+    (hw : ‖w‖ ≤ 1) : 1 + ∑ j ∈ range p, nth (aryule x p .biased).A j * w ^ (j + 1) ≠ 0 := by
+  have hk := (yule_stable_params x hx p).2.2
+  rw [aryule_unfold] at hk ⊢
+  exact SchurL.levRun_rev_ne_zero _ _ p hk w hw
+
+/-- non-vacuity: a non-zero real signal, order 2 (the hypothesis is the same as in
+`yule_stable_params`); and the order-1 theorem is the instance `p = 1` -/
+example : ∃ j, j < ([1, -2, 3, 1] : List ℝ).length ∧ nth ([1, -2, 3, 1] : List ℝ) j ≠ 0 :=
+  ⟨0, by simp, by simp [nth]⟩
+
+example (x : List F) (hx : ∃ j, j < x.length ∧ nth x j ≠ 0)
+    (z : F) (hz : z + nth (aryule x 1 .biased).A 0 = 0) : ‖z‖ < 1 :=
+  yule_stable x hx 1 z (by simpa using hz)
+
+end Stability
 
 end SpecVerif.C12
